@@ -52,7 +52,7 @@ package tcc
 //@   let cv := ctxvalue(ctx, tm.seataContextVariable)
 //@   requires cv != nil ==> isT(cv, *tm.ContextVariable) && cv.(*tm.ContextVariable) != nil
 //@   let global := cv != nil && cv.(*tm.ContextVariable).Xid != ""
-//@   modifies cv.(*tm.ContextVariable).BusinessActionContext, ghost.begin_sends, ghost.commit_sends, ghost.rollback_sends, ghost.other_sends, ghost.commit_acked, ghost.rollback_acked, ghost.last_send_failed, ghost.commit_xid, ghost.rollback_xid, ghost.begin_xid
+//@   modifies cv.(*tm.ContextVariable).BusinessActionContext, ghost.begin_sends, ghost.commit_sends, ghost.rollback_sends, ghost.other_sends, ghost.commit_acked, ghost.commit_refused, ghost.rollback_acked, ghost.rollback_refused, ghost.last_send_failed, ghost.commit_xid, ghost.rollback_xid, ghost.begin_xid
 //@   ensures outside-a-global-tx: !global ==> result != nil && ghost.other_sends == old(ghost.other_sends)
 //@   ensures exactly-one-registration: global ==> called("BranchRegister#1") && !called("BranchRegister#2")
 //@   ensures refusal-surfaces: global && called("BranchRegister#1") && callres("BranchRegister#1", 1) != nil ==> result != nil
